@@ -28,10 +28,11 @@ impl EventLog {
 
     pub fn append(&self, event: &Event) -> io::Result<()> {
         let mut writer = self.writer.lock().expect("event log mutex");
-        let line = serde_json::to_string(event)
+        let mut line = serde_json::to_string(event)
             .map_err(|err| io::Error::new(io::ErrorKind::InvalidData, err))?;
+        // One write per frame: a crash can never leave a body without its newline.
+        line.push('\n');
         writer.write_all(line.as_bytes())?;
-        writer.write_all(b"\n")?;
         writer.flush()?;
         Ok(())
     }
